@@ -30,8 +30,13 @@ type BuildReport struct {
 // Options of a universe build.
 type Options struct {
 	Slim bool
-	// GenOptions mutates the generator options (option-set variants).
-	GenOptions func(o *gen.Options)
+	// GenOptions mutates the generator options for one file (option-set
+	// variants, in-process plugins).
+	GenOptions func(file string, o *gen.Options)
+	// Recurse lists root files that are additionally generated with recursion
+	// into a separate tree (gen_recurse/) — used by checks that look at the
+	// plugin request of a recursive generation; nothing is compiled from it.
+	Recurse []string
 	// ExtraFiles adds IDL files beyond the universe (check-specific cells):
 	// path -> contents; they are generated like the cell files.
 	Extra *schema.Program
@@ -76,13 +81,29 @@ func Prepare(s *ev.S, opt Options) (*BuildReport, error) {
 			}
 			o := &gen.Options{OutputDir: filepath.Join(mod, "gen"), PackagePrefix: "cellsmod/gen", ThriftRoot: thrift, NoRecurse: true, NoVersionCheck: true}
 			if opt.GenOptions != nil {
-				opt.GenOptions(o)
+				opt.GenOptions(f.Path, o)
 			}
 			if err := gen.Generate(m, o); err != nil {
 				rep.GenerateError[f.Path] = "generate: " + err.Error()
 				return
 			}
 			pkgs = append(pkgs, strings.TrimSuffix(f.Path, ".thrift"))
+		}()
+	}
+	for _, rf := range opt.Recurse {
+		func() {
+			defer func() { recover() }()
+			m, err := compile.Compile(filepath.Join(thrift, rf))
+			if err != nil {
+				return
+			}
+			o := &gen.Options{OutputDir: filepath.Join(root, "gen_recurse"), PackagePrefix: "cellsmod/gen", ThriftRoot: thrift, NoVersionCheck: true}
+			if opt.GenOptions != nil {
+				opt.GenOptions("recurse:"+rf, o)
+			}
+			if err := gen.Generate(m, o); err != nil {
+				rep.GenerateError["recurse:"+rf] = err.Error()
+			}
 		}()
 	}
 	gomod := fmt.Sprintf("module cellsmod\n\ngo 1.22.1\n\nrequire (\n\tgo.uber.org/thriftrw v0.0.0\n\tverif v0.0.0\n)\n\nreplace go.uber.org/thriftrw => /repo\n\nreplace verif => %s\n", s.Verif)
@@ -152,6 +173,17 @@ func Prepare(s *ev.S, opt Options) (*BuildReport, error) {
 			case "struct", "union", "exception":
 				fmt.Fprintf(&sb, "\treg.Add(%q, %q, reflect.TypeOf(%s.%s{}))\n", pk, d.Name, alias(pk), d.Name)
 				used = true
+			case "service":
+				for _, fn := range d.Funcs {
+					fmt.Fprintf(&sb, "\treg.Extra[%q] = %s.%s_%s_Helper\n", pk+"."+d.Name+"_"+fn.Name+"_Helper", alias(pk), d.Name, fn.Name)
+					for _, suffix := range []string{"Args", "Result"} {
+						if fn.OneWay && suffix == "Result" {
+							continue
+						}
+						fmt.Fprintf(&sb, "\treg.Add(%q, %q, reflect.TypeOf(%s.%s_%s_%s{}))\n", pk, d.Name+"_"+fn.Name+"_"+suffix, alias(pk), d.Name, fn.Name, suffix)
+					}
+					used = true
+				}
 			}
 		}
 		if !used {
@@ -179,6 +211,7 @@ func Prepare(s *ev.S, opt Options) (*BuildReport, error) {
 	s.Binary = bin
 	rb, _ := json.Marshal(rep)
 	s.Args["cells_report"] = string(rb)
+	s.Args["cells_root"] = root
 	if opt.Slim {
 		s.Args["cells_slim"] = "1"
 	} else {
